@@ -1248,9 +1248,13 @@ func rC12GetenvCallers(w *World, r *Report) {
 			case n == "os.Getenv" && fnName == nParse:
 				s, ok := constString(c.Common().Args[0])
 				ru.Check(ok && (s == "COMP_LINE" || s == "ZSHELL"), "Getenv/Parse", w.IPos(c), "completion variable "+s, "Parse reads an environment variable other than the completion ones: option values could change at parse time")
-			case n == "os.Getenv" && strings.HasPrefix(fnName, "(*getoptions.GetOpt).GetEnv$"):
-				_, isFree := c.Common().Args[0].(*ssa.FreeVar)
-				if u, ok := c.Common().Args[0].(*ssa.UnOp); ok {
+			case (n == "os.Getenv" || n == "os.LookupEnv") && strings.HasPrefix(fnName, "(*getoptions.GetOpt).GetEnv$"):
+				arg := c.Common().Args[0]
+				if src := envNameSource(w, fn, arg); src != nil {
+					arg = src
+				}
+				_, isFree := arg.(*ssa.FreeVar)
+				if u, ok := arg.(*ssa.UnOp); ok {
 					_, isFree = u.X.(*ssa.FreeVar)
 				}
 				ru.Check(isFree, "Getenv/GetEnv", w.IPos(c), "reads the variable named at definition", "GetEnv reads a variable other than the one named")
@@ -1372,18 +1376,24 @@ func rC12GetEnvBody(w *World, r *Report) {
 		ru.Undecided("anchor", "-", "GetEnv closure not found")
 		return
 	}
-	var getenv *ssa.Call
-	for _, c := range callsTo(fn, "os.Getenv") {
-		getenv = c.(*ssa.Call)
-	}
+	getenv, envFound, envCall := envRead(fn)
 	if getenv == nil {
 		ru.Bad("GetEnv/read", w.Pos(fn.Pos()), "GetEnv does not read the environment")
 		return
 	}
-	nameArg := getenv.Call.Args[0]
+	nameArg := envCall.Call.Args[0]
+	if fv := envNameSource(w, fn, nameArg); fv != nil {
+		nameArg = fv
+	}
+	sameFree := func(a, b ssa.Value) bool {
+		if fv := envNameSource(w, fn, a); fv != nil {
+			a = fv
+		}
+		return sameFree(a, b)
+	}
 	nonEmpty := func(b *ssa.BasicBlock) bool {
 		for _, f := range factsAt(b) {
-			if f.Op == token.NEQ && f.Y != nil && f.X == ssa.Value(getenv) {
+			if f.Op == token.NEQ && f.Y != nil && f.X == getenv {
 				if s, ok := constString(f.Y); ok && s == "" {
 					return true
 				}
@@ -1409,7 +1419,7 @@ func rC12GetEnvBody(w *World, r *Report) {
 			continue
 		}
 		kval, _ := constantInt64(kc)
-		edgeOK := kindEdgeFilter(w, kval, getenv)
+		edgeOK := kindEdgeFilter(w, kval, getenv, envFound)
 		isSave := func(in ssa.Instruction) bool { c, ok := in.(ssa.CallInstruction); return ok && calleeName(c) == nSave }
 		isSetC := func(in ssa.Instruction) bool {
 			c, ok := in.(ssa.CallInstruction)
@@ -1440,9 +1450,21 @@ func rC12GetEnvBody(w *World, r *Report) {
 			}
 		}
 		// a saved value always marks the option called (whatever the value: restating the default counts as supplied)
+		// (in either order: SetCalled reads nothing Save writes and Save's result is discarded here)
+		beforeSetC := ig.reachFromE([]int{0}, isSetC, edgeOK)
 		for _, c := range ksaves {
-			if ok, _ := ig.mustPass(ig.after(c), isSetC, isRet); !ok {
+			if ok, _ := ig.mustPass(ig.after(c), isSetC, isRet); !ok && beforeSetC[ig.idx[c]] {
 				good, why = false, "after Save a path returns without SetCalled(name): a variable whose value was stored does not count as supplied (Called / Required)"
+			}
+		}
+		// and the option counts as supplied only with a stored value
+		beforeSave := ig.reachFromE([]int{0}, isSave, edgeOK)
+		for _, c := range setc {
+			if !reach[ig.idx[c]] {
+				continue
+			}
+			if ok, _ := ig.mustPass(ig.after(c), isSave, isRet); !ok && beforeSave[ig.idx[c]] {
+				good, why = false, "SetCalled(name) on a path that stores nothing: a variable whose text was refused counts as supplied"
 			}
 		}
 		for _, c := range ksaves {
@@ -1454,7 +1476,7 @@ func rC12GetEnvBody(w *World, r *Report) {
 			v := els[0]
 			if k == "BoolType" {
 				lc, ok := v.(*ssa.Call)
-				if !ok || calleeName(lc) != "strings.ToLower" || lc.Call.Args[0] != ssa.Value(getenv) {
+				if !ok || calleeName(lc) != "strings.ToLower" || lc.Call.Args[0] != getenv {
 					good, why = false, "bool text is not the lower-cased variable"
 					continue
 				}
@@ -1493,7 +1515,7 @@ func rC12GetEnvBody(w *World, r *Report) {
 				if seen[ig.idx[c]] {
 					good, why = false, "bool Save is reachable for texts other than true/false"
 				}
-			} else if v != ssa.Value(getenv) {
+			} else if v != getenv {
 				good, why = false, "the text saved is not the variable's value verbatim"
 			}
 		}
@@ -1511,7 +1533,7 @@ func rC12GetEnvBody(w *World, r *Report) {
 			continue
 		}
 		kval, _ := constantInt64(kc)
-		reach := ig.reachFromE([]int{0}, nil, kindEdgeFilter(w, kval, getenv))
+		reach := ig.reachFromE([]int{0}, nil, kindEdgeFilter(w, kval, getenv, envFound))
 		pos := ""
 		for _, c := range saves {
 			if reach[ig.idx[c]] {
@@ -1528,6 +1550,75 @@ func rC12GetEnvBody(w *World, r *Report) {
 		}
 	}
 	ru.Check(okEnv, "GetEnv/SetEnvVar", w.Pos(fn.Pos()), "EnvVar recorded for the help", "the bound variable is not recorded (help would not show it)")
+}
+
+// envRead: the text GetEnv's closure reads from the environment: the result of os.Getenv, or the first result of
+// os.LookupEnv (with the second, which is true whenever the first is non-empty).
+func envRead(fn *ssa.Function) (val, found ssa.Value, call *ssa.Call) {
+	for _, c := range callsTo(fn, "os.Getenv") {
+		call = c.(*ssa.Call)
+		val = call
+	}
+	for _, c := range callsTo(fn, "os.LookupEnv") {
+		cc, ok := c.(*ssa.Call)
+		if !ok || cc.Referrers() == nil {
+			continue
+		}
+		for _, u := range *cc.Referrers() {
+			if e, ok := u.(*ssa.Extract); ok {
+				if e.Index == 0 {
+					val, call = e, cc
+				} else {
+					found = e
+				}
+			}
+		}
+	}
+	return val, found, call
+}
+
+// envNameSource: v reads <opt>.EnvVar after <opt>.SetEnvVar(x) ran on every path to it, EnvVar being written by SetEnvVar
+// alone in the whole library: v equals x, which is returned (nil otherwise).
+func envNameSource(w *World, fn *ssa.Function, v ssa.Value) ssa.Value {
+	base, ok := loadOfFieldNamed(v, "EnvVar")
+	if !ok {
+		return nil
+	}
+	ld := v.(*ssa.UnOp)
+	pos := func(in ssa.Instruction) int {
+		for i, x := range in.Block().Instrs {
+			if x == in {
+				return i
+			}
+		}
+		return -1
+	}
+	var set ssa.CallInstruction
+	for _, c := range callsTo(fn, "(*option.Option).SetEnvVar") {
+		if c.Common().Args[0] == base && (c.Block() == ld.Block() && pos(c) < pos(ld) || c.Block() != ld.Block() && c.Block().Dominates(ld.Block())) {
+			set = c
+		}
+	}
+	if set == nil {
+		return nil
+	}
+	for _, f := range w.Funcs {
+		if short(f) == "(*option.Option).SetEnvVar" {
+			continue
+		}
+		bad := false
+		eachInstr(f, func(in ssa.Instruction) {
+			if st, ok := in.(*ssa.Store); ok {
+				if a, ok := st.Addr.(*ssa.FieldAddr); ok && fieldOfAddr(a).Name() == "EnvVar" {
+					bad = true
+				}
+			}
+		})
+		if bad {
+			return nil
+		}
+	}
+	return set.Common().Args[1]
 }
 
 // sameFree: both values read the same captured variable.
@@ -1595,11 +1686,15 @@ func constantInt64(c *types.Const) (int64, bool) { return constant.Int64Val(c.Va
 
 // kindEdgeFilter prunes branch edges that contradict OptType == kval and getenv != "" (facts on load(OptType) directly,
 // or through a pure same-module predicate applied to it, evaluated over its own source under the assumption).
-func kindEdgeFilter(w *World, kval int64, getenv *ssa.Call) func(term ssa.Instruction, k int) bool {
+func kindEdgeFilter(w *World, kval int64, getenv, found ssa.Value) func(term ssa.Instruction, k int) bool {
 	return func(term ssa.Instruction, k int) bool {
 		iff, ok := term.(*ssa.If)
 		if !ok {
 			return true
+		}
+		// os.LookupEnv: a non-empty value was found
+		if found != nil && iff.Cond == found && k == 1 {
+			return false
 		}
 		for _, f := range condFacts(iff.Cond, k == 0, iff) {
 			if f.Y != nil && (f.Op == token.EQL || f.Op == token.NEQ) {
@@ -1614,7 +1709,7 @@ func kindEdgeFilter(w *World, kval int64, getenv *ssa.Call) func(term ssa.Instru
 						}
 					}
 				}
-				if getenv != nil && f.X == ssa.Value(getenv) {
+				if getenv != nil && f.X == getenv {
 					if s, ok := constString(f.Y); ok && s == "" && f.Op == token.EQL {
 						return false
 					}
